@@ -2,6 +2,7 @@ from _collections_abc import dict_keys, dict_values
 from pyg_base._as_list import as_list, as_tuple
 from pyg_base._as_float import as_float
 from pyg_base._dict import Dict
+from pyg_base._dictattr import relabel as _relabel
 from pyg_base._eq import eq
 from pyg_base._zip import zipper, lens
 from pyg_base._types import is_str, is_strs, is_arr, is_df, is_dicts, is_int, is_ints, is_tuple, is_bools, is_nan, is_num
@@ -385,7 +386,7 @@ class dictable(Dict):
             if len(item) == 0:
                 return type(self)(data = [], columns = self.keys())
             elif is_strs(item):
-                return type(self)(super(dictable, self).__getitem__(item))
+                return type(self)({key : super(dictable, self).__getitem__(key) for key in item}) ## not by keyword: 'data'/'columns' are column names too
             elif is_bools(item):
                 res = type(self)([row for row, tf in zipper(list(self), item) if tf])
                 return res if len(res) else type(self)([], self.keys())
@@ -440,6 +441,10 @@ class dictable(Dict):
             super(dictable, self).__delattr__(attr)
         else:
             super(dictable, self).__delitem__(attr)
+
+    def relabel(self, *args, **relabels):
+        keys = _relabel(list(self.keys()), *args, **relabels)
+        return type(self)({keys.get(k,k) : v for k, v in self.items()}) ## not by keyword: 'data'/'columns' are column names too
     
     def if_else(self, condition, if_true, if_false, **default_params):
         """
